@@ -267,6 +267,12 @@ def findLinks (H : Hier) (links : List Link) (x y : Cls) : List Link :=
 
 end Spec
 
+/-- a tiny universe used by the negation witnesses: classes 0,1,2 are direct subclasses of `FeatureGroup`, 3 derives from 0 -/
+def witnessHier : Hier :=
+  { parent := fun c => if c = 3 then some 0 else none,
+    name := fun c => if c = 0 then "A" else if c = 1 then "B" else if c = 2 then "C" else "A1",
+    indexDecl := fun _ => none }
+
 /-- the input class on which code and documented rule differ: the asymmetric "one side exact, other polymorphic" rule -/
 def asymmetricAdmitted (H : Hier) (x y : Cls) (l : Link) : Bool :=
   matchesPoly H l x y && l.left != l.right && H.dist x l.left != H.dist y l.right &&
